@@ -20,7 +20,7 @@ def run(rep: Report, tier: str, seed: int) -> None:
 
     def judge(s: TreeSpec, opts: Opts, idx, api, obs) -> None:
         owners = {g.name: g for g in s.decls if not g.chain}
-        ctx = f"{s.label.split('|')[0]}|root:{s.r_root}|sub:{s.r_sub}"
+        ctx = f"{s.label.split('|')[0]}{'+shadow' if s.shadow else ''}|root:{s.r_root}|sub:{s.r_sub}"
 
         def viol(clause: str, tag: str, detail: dict) -> None:
             rep.violation(clause, f"{clause}:{tag}|{ctx}", {"tree": s.label, **detail}, files=pack_trees([s])[0], src_rel=PKG, opts=opts)
